@@ -84,10 +84,12 @@ def Transaction.WF (c : Cfg) (t : Transaction) : Prop :=
 def Transaction.norm (c : Cfg) (t : Transaction) : Transaction := { t with body := t.body.norm c }
 
 /-- a proof the packed format can carry: `edge_bits` in 1..=63, exactly `proofsize` nonces of at
-most `edge_bits` bits, at least 8 packed bytes -/
+most `edge_bits` bits, at least 8 packed bytes (and no more than one `read_fixed_bytes` may read:
+true for every proof size below 12 698) -/
 def Proof.WF (proofSize : Nat) (p : Proof) : Prop :=
   1 ≤ p.edgeBits ∧ p.edgeBits ≤ 63 ∧ p.nonces.length = proofSize
   ∧ (∀ n ∈ p.nonces, n < 2^p.edgeBits) ∧ 8 ≤ packLen proofSize p.edgeBits
+  ∧ packLen proofSize p.edgeBits ≤ MAX_FIXED_READ
 
 def ProofOfWork.WF (proofSize : Nat) (p : ProofOfWork) : Prop :=
   p.totalDifficulty < 2^64 ∧ p.secondaryScaling < 2^32 ∧ p.nonce < 2^64 ∧ p.proof.WF proofSize
